@@ -181,16 +181,17 @@ theorem start_goroutines_gone_at_kill_return (P : Params) (hW : P.killWaitsForGo
   simp only [List.mem_cons, List.not_mem_nil, or_false] at hs
   rcases hs with rfl | rfl | rfl | rfl <;> simp [goneAtKillReturn, Site.inClientWaitGroup, hW]
 
-/-- Site accounting: 31 `go` sites, 17 of which can run in the host role; the model's list is
+/-- Site accounting: 32 `go` sites, 18 of which can run in the host role; the model's list is
 sorted and duplicate free (so `goSites = knownSites` is an equality of sets with multiplicity). -/
 theorem site_accounting :
-    allSites.length = 31 ∧ (allSites.filter Site.hostRole).length = 17 ∧ knownSites = List.range' 1 31 := by decide
+    allSites.length = 32 ∧ (allSites.filter Site.hostRole).length = 18 ∧ knownSites = List.range' 1 32 := by decide
 
-/-- Every host-role site is an entry of some session of the model, except the two that are
-outside the histories considered (`CleanupClients`' helper, which only calls `Kill`, and the
-wait goroutine of a reattached client). -/
+/-- Every host-role site is an entry of some session of the model, except the three that are
+outside the histories considered (`CleanupClients`' helper, which only calls `Kill`, the
+wait goroutine of a reattached client, and the discard of a stream announced for a multiplexed
+listener that was closed before it accepted it — which ends with the session). -/
 theorem host_sites_covered (s : Site) (hs : s.hostRole = true) :
-    s = .cleanupKill ∨ s = .reattachWait ∨
+    s = .cleanupKill ∨ s = .reattachWait ∨ s = .muxCliDiscard ∨
     ∃ c, (gorEntry goodParams ⟨true⟩ (.site s)) ∈ entries goodParams ⟨true⟩ c [.callback] := by
   cases s <;> simp [Site.hostRole] at hs <;> simp
   all_goals first
